@@ -101,11 +101,13 @@ def _verify_cdf_params(
 
   if scaling_parameters is not None:
     try:
-      _ = tf.broadcast_to(
-          scaling_parameters,
-          location_parameters.shape,
-          name="cdf_fn_try_broadcasting",
+      # Static shapes only: the batch dimension is unknown when the parameters
+      # are produced by other layers inside a Keras model or a tf.function.
+      broadcast_shape = tf.broadcast_static_shape(
+          scaling_parameters.shape, location_parameters.shape
       )
+      if not broadcast_shape.is_compatible_with(location_parameters.shape):
+        raise ValueError("scaling_parameters has more elements.")
     except Exception as err:
       raise ValueError(
           "scaling_parameters and location_parameters likely"
